@@ -136,8 +136,19 @@ class SessionModel:
                 opn = n.children[1]
                 if (opn.cls, opn.pc, opn.num) == (1, True, 2) and opn.children == []:
                     opn.pc, opn.children, opn.content = False, None, b""
+            # MS-ADTS form of the notice of disconnection, which the library documents as understood: an ExtendedResponse
+            # without a responseName whose envelope ends with [10] carrying the OID (after the controls, if any).
+            ms_name = None
+            if n.children and len(n.children) >= 3:
+                last, opn = n.children[-1], n.children[1]
+                if (last.cls, last.pc, last.num) == (2, False, 10) and (opn.cls, opn.num) == (1, 24):
+                    ms_name = bytes(last.content or b"")
+                    n.children = n.children[:-1]
             try:
-                msgs.append(rfc4511.decode_node(n))
+                mm = rfc4511.decode_node(n)
+                if ms_name is not None and not mm[2][1]:
+                    mm = (mm[0], mm[1], (mm[2][0], ms_name.decode("utf-8"), mm[2][2]), mm[3])
+                msgs.append(mm)
             except rfc4511.RefDecodeError as e:
                 bad = str(e)
                 break
